@@ -15,6 +15,14 @@ CHECKS = {
             "Every generated message and every message emitted through the LDAPClient/LDAPServer API is decoded by an independent strict decoder written from RFC 4511 Appendix B and must give back the abstract message; catches symmetric mistakes the library's own decoder forgives.", "5/C03"),
     "C07": ("exploration", "arithmetic oracle (int.to_bytes/from_bytes, X.690 formulas) + icontract post-conditions on the six BER primitives",
             "All integers of [-70000,70000] exhaustively plus boundary/carry/random values to 2^2048, tags of every class with multi-octet numbers, all length forms, booleans, nestings; icontract post-conditions on the real asn1 functions are evaluated on every call (counts in evidence).", "5/C07"),
+    "C02": ("exploration", "history + framing invariant: single-delivery twin, independent framer, return-time snapshots, probe equivalence",
+            "Model-legal streams for both roles are delivered under exhaustive single cuts, exhaustive cut pairs (short streams), byte-wise and random partitions with bytes/bytearray/memoryview chunks whose caller buffers are overwritten afterwards; an online monitor compares messages returned with complete PDUs delivered after every call.", "5/C02"),
+    "C04": ("fault_enumeration", "encoding-freedom injection through a reference encoder, differential against the abstract message",
+            "Every single (node x freedom) alteration of small messages is enumerated and random combinations are applied to larger ones: all long length forms incl. AD's 0x84, TRUE as any non-zero octet, explicit DEFAULT FALSE, unrecognised trailing SEQUENCE components; decoded through unpack_ldap_message and LDAPSession.receive.", "5/C04"),
+    "C05": ("fault_enumeration", "fault enumeration at the receive boundary: outcome-class, closed-state and notice-decoder oracles",
+            "Enumerates 20 corruption operators at every node of valid messages, all 255 substitutions at every byte of short messages, every truncation, nesting bombs to 20000 levels and random bytes, under chunkings and 4 prior histories per role; the oracle accepts only a message list or ProtocolError, then requires CLOSED, refusal of further input and a strictly decodable notice/unbind.", "5/C05"),
+    "C06": ("fault_enumeration", "conservation invariant against an independent TLV framer after every receive call",
+            "Streams of complete top-level units with valid, overrunning, truncated, control-damaged and random interiors; after every returning receive call the number of messages returned must equal the number of complete units delivered.", "5/C06"),
 }
 
 NOT_YET = {}
